@@ -1,6 +1,7 @@
 package main
 
 import (
+	"go/types"
 	"go/token"
 	"strings"
 
@@ -25,6 +26,7 @@ func init() {
 			{"C03/list-policy", "security.CheckHost accepts only under 'any' or exact equality with a substituted configured entry and non-empty user", c03ListPolicy},
 			{"C03/deny-path", "refused host: CHANNEL_RESPONSE with E_PROXY_RAP_ACCESSDENIED (0x800759DA), no dial, tunnel ends", c03DenyPath},
 			{"C03/wiring", "main installs the host check (session-wrapped under token auth) before registering the handler", func(c *Ctx) { wiringRule(c, "C03/wiring") }},
+			{"C03/name-decoding", "the requested server name is decoded completely: the UTF-16 decoder visits every code unit and removes at most one trailing NUL", c03NameDecoding},
 		},
 	})
 }
@@ -378,4 +380,106 @@ func c03DenyPath(c *Ctx) {
 	if n == 0 {
 		c.Undecided(rule, "refusal-path", token.NoPos, "no path on which CheckHost refuses")
 	}
+}
+
+// c03NameDecoding: "exactly the server name of the request": channelRequest decodes the name with
+// DecodeUTF16. If the decoder stops early (first NUL) or strips more than the one terminator, two
+// different requested names collapse into one and the policy is asked about a prefix of what the
+// client sent. Structural conditions: the decoding loop has no exit but its length test, every
+// iteration appends to the result, and the only shortening afterwards is one trailing element
+// outside any loop.
+func c03NameDecoding(c *Ctx) {
+	rule := "C03/name-decoding"
+	fn := c.Fn("cmd/rdpgw/protocol", "DecodeUTF16")
+	key := shortFn(fn)
+	// channelRequest uses it for the server name
+	cr := c.Fn("cmd/rdpgw/protocol", "Processor.channelRequest")
+	used := false
+	for _, r := range returnsOf(cr) {
+		for _, o := range c.originsDeep(r.Results[0], 0, protoPkg+".DecodeUTF16") {
+			if o.Kind == "call" && calleeName(o.Call) == protoPkg+".DecodeUTF16" {
+				used = true
+			}
+		}
+	}
+	c.Check(used, rule, "channelRequest server", cr.Pos(), "the server name is DecodeUTF16 of the name bytes of this packet", "the server name returned by channelRequest does not come from DecodeUTF16")
+	// the loop
+	var header *ssa.BasicBlock
+	inLoop := map[*ssa.BasicBlock]bool{}
+	for _, b := range fn.Blocks {
+		if inCycle(b) {
+			inLoop[b] = true
+		}
+	}
+	for _, b := range fn.Blocks {
+		if !inLoop[b] {
+			continue
+		}
+		for _, s := range b.Succs {
+			if !inLoop[s] {
+				if header != nil && header != b {
+					c.Bad(rule, key+" loop-exit", b.Instrs[len(b.Instrs)-1].Pos(), "the decoding loop can be left from inside its body (break/return): code units after that point are not decoded, so a name with an embedded NUL is cut short before the policy sees it")
+				}
+				if header == nil {
+					header = b
+				}
+			}
+		}
+	}
+	if header == nil {
+		c.Undecided(rule, key+" loop", fn.Pos(), "decoding loop not found")
+		return
+	}
+	// the one exit is the length test
+	exitOK := false
+	if ifi, ok := header.Instrs[len(header.Instrs)-1].(*ssa.If); ok {
+		if bo, ok := ifi.Cond.(*ssa.BinOp); ok && (bo.Op == token.LSS || bo.Op == token.LEQ || bo.Op == token.NEQ) {
+			for _, side := range []ssa.Value{bo.X, bo.Y} {
+				if isLenOf(strip(side), fn.Params[0]) {
+					exitOK = true
+				}
+				if k, ok := strip(side).(*ssa.BinOp); ok && (isLenOf(k.X, fn.Params[0]) || isLenOf(k.Y, fn.Params[0])) {
+					exitOK = true
+				}
+			}
+		}
+	}
+	c.Check(exitOK, rule, key+" loop-bound", header.Instrs[len(header.Instrs)-1].Pos(), "the loop runs until the end of the input (its only exit tests the index against len(b))", "the decoding loop's exit does not test the index against the input length")
+	// every iteration appends
+	appended := false
+	for b := range inLoop {
+		for _, in := range b.Instrs {
+			if ci, ok := in.(*ssa.Call); ok && (calleeName(ci) == "(*bytes.Buffer).Write" || calleeName(ci) == "(*bytes.Buffer).WriteRune" || calleeName(ci) == "(*strings.Builder).WriteRune") {
+				all := true
+				for lb := range inLoop {
+					for _, s := range lb.Succs {
+						if s == header && lb != header && !b.Dominates(lb) {
+							all = false
+						}
+					}
+				}
+				appended = appended || all
+			}
+		}
+	}
+	c.Check(appended, rule, key+" every-unit", fn.Pos(), "every iteration appends the decoded unit", "an iteration of the decoding loop can complete without appending its code unit")
+	// shortening of the result: at most one trailing element, outside loops
+	nShort := 0
+	eachInstr(fn, func(in ssa.Instruction) {
+		sl, ok := in.(*ssa.Slice)
+		if !ok || sl.High == nil {
+			return
+		}
+		if _, isBytes := sl.Type().Underlying().(*types.Slice); !isBytes {
+			return
+		}
+		hb, ok := sl.High.(*ssa.BinOp)
+		if !ok || hb.Op != token.SUB {
+			return
+		}
+		nShort++
+		k, isC := constInt(hb.Y)
+		c.Check(isC && k == 1 && !inCycle(sl.Block()) && isLenOf(hb.X, sl.X), rule, key+" terminator#"+itoa(nShort), sl.Pos(), "exactly one trailing element (the NUL terminator) is removed, once", "more than the one terminator can be stripped from the decoded name (repeated or wider cut): names that differ only in trailing NULs become equal")
+	})
+	c.Floor(rule, 4, "use, loop bound, every unit, terminator")
 }
